@@ -72,3 +72,6 @@ void ob_c04_tri_negctl(const std::array<size_t,2>& shape_, const std::array<size
 #define TR(K,R) template void ob_c04_tri<K,R,false>(const mk_t<K,size_t,R>&, const mk_t<K,size_t,(R==1?2:R)>&, int); \
                 template void ob_c04_tri<K,R,true>(const mk_t<K,size_t,R>&, const mk_t<K,size_t,(R==1?2:R)>&, int);
 TR(k_std,1) TR(k_std,2) TR(k_std,3) TR(k_std,4) TR(k_utl,1) TR(k_utl,2) TR(k_utl,3) TR(k_utl,4)
+#ifdef VERIF_THOROUGH
+TR(k_std,5) TR(k_utl,5)
+#endif
